@@ -24,6 +24,8 @@ pub fn alphabet(thorough: bool) -> Vec<(&'static str, &'static str)> {
         ("empty-block-comment", "/**/"),
         ("block-comment-with-stars", "/** c **/"),
         ("star-only-block-comment", "/***/"),
+        // inside a block comment "--" means nothing: the comment is closed on a line that starts with dashes
+        ("block-comment-closed-on-dashed-line", "/* a\n-- b */"),
         ("empty", ""),
     ];
     if thorough {
@@ -35,6 +37,8 @@ pub fn alphabet(thorough: bool) -> Vec<(&'static str, &'static str)> {
             ("line-comment-containing-block-open", "-- /* c\n"),
             ("depth-3-block-comment", "/*/*/* c */*/*/"),
             ("line-comment-closed-by-dashes", "-- c -- "),
+            ("dashed-line-opens-nested-comment", "/* a\n-- /* b */ c */"),
+            ("dashed-line-inside-block-comment", "/* a\n-- b\n c */"),
         ]);
     }
     v
